@@ -29,7 +29,9 @@ TRUSTED = ["sqrt is uninterpreted in the rational model (harness applies libm sq
            "storage dtypes: the harness only ever hands the library arrays whose stored values ARE the case's values (fits(): "
            "integers within the dtype's range, float32-representable dyadics); relations whose transformed values do not exist in the "
            "dtype (negation for uint8 / bool, rescaling out of range or to non-integers) are skipped, not wrapped"]
-ASSUMPTIONS = ["series values are small dyadic rationals times a per-series power of two 2^e, -30 <= e <= 30 (exact in float64, so the "
+ASSUMPTIONS = ["the series is the sequence of stored values along the non-ts_dim dimension in stored order; its coordinate labels (any "
+               "type, any order, duplicates, absent) carry no meaning for the statistic",
+               "series values are small dyadic rationals times a per-series power of two 2^e, -30 <= e <= 30 (exact in float64, so the "
                "exact-rational model applies at every magnitude), or NaN; quotients compared to 1e-9; mean and interval limits are "
                "compared after exact division by 2^e, i.e. relative to the magnitude of the series",
                "exact V_hat = 0 on a non-constant series is decided by float rounding in the implementation: skipped and tagged",
@@ -60,7 +62,10 @@ MANIFEST = dict(
          "against independent cdf/quantile implementations, and _next_regular against the true next 5-smooth number. "
          "Storage dtypes (int64 / int32 / int16 / int8 / uint8 / bool integer-valued differences incl. 0/1 streams, float32 dyadics; h >= 2 "
          "favoured, non-integer means): the expected HLN statistic is the Spec on the VALUES, every relation is repeated, and the same "
-         "values held as float64 must give the same outputs (both methods). HG given the parameters (Spec.hgDensity, theorems: positive "
+         "values held as float64 must give the same outputs (both methods). Time-axis labels (not ascending: descending, day-first "
+         "date strings, wrapping counters, duplicates, unordered datetime64, none): the expected statistic is the Spec on the values IN "
+         "THE ORDER SUPPLIED (the autocovariances depend on it), every relation is repeated under those labels, and the same values "
+         "under the plain labels 0..n-1 must give identical outputs (both methods). HG given the parameters (Spec.hgDensity, theorems: positive "
          "for sigma^2 > 0 and rho >= 0; summing fewer lags is strictly smaller for rho > 0; geometric closed form; sigma^2-scaling; "
          "statistic^2 invariant under negation): the real statistic equals mean / sqrt(f0 / n) with f0 = sigma^2 (1 + 2 sum_{k=1}^{n-1} "
          "rho^k) over ALL lags for the implementation's own fitted (sigma, theta) to 1e-9, and agrees with an independent least-squares "
@@ -87,6 +92,11 @@ RULE = ("1-4 series per call (rows of a 2-D DataArray, either dim order, fresh s
         "int8 / uint8 / bool (int64 / int32 also times 2^e up to 2^30 / 2^20), float32 dyadics times 2^e (|e| <= 8) with NaN, length 3-40, "
         "h >= 2 in 70 % of the series, every h on one int64 and one int8 series; long-memory stream (HG): AR(1) phi 0.5 / 0.9 / 0.99, random "
         "walk, trend + noise, fractional d = 0.4, white; length 8-60, values rounded to 1/8, 20 % with two NaNs, h mostly 1-4; "
+        "time-axis labels: 40 % of the cases of every stream (30 % in the correspondence) carry a coordinate along the time dimension whose "
+        "labels are NOT ascending although the data are chronological - descending ints, day-first date strings across a month end, "
+        "day-of-year / hour / weekday counters that wrap inside the series, duplicate labels (all equal, few distinct, descending pairs), "
+        "datetime64 reversed / shuffled / later block first, shuffled ints, unpadded 't9','t10' strings, descending floats with a NaN "
+        "label, no coordinate at all - plus fixed smooth 12-step series (h = 2, 3, 4, both methods) under six such labelings; "
         "distinct = distinct canonical call; "
         "non-trivial = some series has a finite statistic")
 
@@ -368,6 +378,115 @@ def gen_long_case(rng, dtype=None):
     return mk_case(rows, hs, "HG", rng.choice(["normal", "t"]), rng.choice(CLS), rng.choice(["ts-first", "ts-second"]), kinds=kinds)
 
 
+# ------------------------------------------------------------------------------------------------ the coordinate along the time axis
+# The statistics are those of each series IN THE ORDER SUPPLIED (the autocovariances depend on the order of the values); the
+# labels of the coordinate along the time (non-ts_dim) dimension are only labels.  A case may carry
+#     case["tcoord"] = {"kind": <how generated, tag only>, "type": "none" | "int" | "float" | "str" | "datetime64", "labels": [...]}
+# (JSON-able; absent = the labels 0 .. n-1).  The expected values never look at it: they come from `rows` in stored order.
+TCOORD_KINDS = ["desc-int", "desc-int", "dayfirst-str", "dayfirst-str", "wrap-counter", "wrap-counter", "duplicate", "duplicate",
+                "datetime64-unordered", "datetime64-unordered", "shuffled-int", "unpadded-str", "float-desc", "none"]
+
+
+def _ascending(labels):
+    try:
+        return all(not (b < a) for a, b in zip(labels, labels[1:]))
+    except TypeError:
+        return False
+
+
+def gen_tcoord(rng, n, kind=None):
+    """labels for a time axis of length n that are NOT in ascending order although the data are chronological"""
+    import datetime
+    kind = kind or rng.choice(TCOORD_KINDS)
+    typ = "int"
+    if kind == "none":
+        return {"kind": kind, "type": "none", "labels": []}
+    if kind == "desc-int":
+        off = rng.choice([0, 0, 1, 100, -n])
+        labels = [off + n - 1 - i for i in range(n)]
+    elif kind == "dayfirst-str":                       # chronological days written day-first: not chronological as text
+        month = rng.randint(1, 11)
+        first = datetime.date(2021, month + 1, 1) - datetime.timedelta(days=rng.randint(1, max(1, n - 1)))
+        labels = [(first + datetime.timedelta(days=i)).strftime("%d-%m-%Y") for i in range(n)]
+        typ = "str"
+    elif kind == "wrap-counter":                       # day of year / hour of day / minute that wraps inside the series
+        period, base = rng.choice([(365, 1), (24, 0), (12, 1), (60, 0), (7, 0)])
+        start = period - rng.randint(1, max(1, min(n - 1, period - 1)))
+        labels = [(start + i) % period + base for i in range(n)]
+    elif kind == "duplicate":
+        u = rng.random()
+        if u < 0.25:
+            labels = [rng.randint(0, 3)] * n                                   # every label the same
+        elif u < 0.6:
+            labels = [rng.randint(0, 2) for _ in range(n)]                     # few distinct labels, any order
+        else:
+            labels = [(n - 1 - i) // 2 for i in range(n)]                      # descending in pairs
+    elif kind == "datetime64-unordered":
+        days = list(range(n))
+        u = rng.random()
+        if u < 0.4:
+            days.reverse()
+        elif u < 0.8:
+            rng.shuffle(days)
+        else:                                                                   # two chronological blocks, the later one first
+            cut = rng.randint(1, n - 1)
+            days = days[cut:] + days[:cut]
+        start = datetime.date(2020, rng.randint(1, 12), rng.randint(1, 28))
+        labels = [(start + datetime.timedelta(days=d)).isoformat() for d in days]
+        typ = "datetime64"
+    elif kind == "shuffled-int":
+        labels = list(range(n))
+        rng.shuffle(labels)
+    elif kind == "unpadded-str":                       # "t8", "t9", "t10", ...: chronological, not in text order
+        start = rng.choice([0, 1, 5, 8, 95])
+        labels = ["t%d" % (start + i) for i in range(n)]
+        if rng.random() < 0.3:
+            rng.shuffle(labels)
+        typ = "str"
+    elif kind == "float-desc":
+        step = rng.choice([0.5, 0.25, 1.0])
+        labels = [(n - i) * step for i in range(n)]
+        if rng.random() < 0.3:
+            labels[rng.randrange(n)] = NAN                                     # a missing label
+        typ = "float"
+    else:
+        raise ValueError(kind)
+    if kind != "duplicate" and _ascending(labels):     # (a shuffle that came out sorted, ...): make it descending
+        labels = labels[::-1]
+        if _ascending(labels):
+            labels, typ = [n - 1 - i for i in range(n)], "int"
+    return {"kind": kind, "type": typ, "labels": labels}
+
+
+def time_labels(case, n):
+    """coordinate values along the time axis (None = the DataArray gets no coordinate there)"""
+    tc = case.get("tcoord")
+    if tc is None:
+        return list(range(n))
+    typ = tc["type"]
+    if typ == "none":
+        return None
+    labels = tc["labels"]
+    if len(labels) != n:
+        raise ValueError("tcoord labels do not match the length of the series")
+    if typ == "datetime64":
+        return np.array(labels, dtype="datetime64[ns]")
+    if typ == "float":
+        return [float(x) for x in labels]                # the stored form writes NaN as "nan"
+    if typ == "int":
+        return [int(x) for x in labels]
+    return [str(x) for x in labels]
+
+
+def with_tcoord(rng, case, kind=None):
+    return dict(case, tcoord=gen_tcoord(rng, len(case["rows"][0]), kind))
+
+
+def sprinkle_tcoord(rng, cases, p):
+    """about a fraction p of the cases get a non-ascending time coordinate (drawn AFTER the cases themselves)"""
+    return [with_tcoord(rng, c) if ("tcoord" not in c and rng.random() < p) else c for c in cases]
+
+
 # ------------------------------------------------------------------------------------------------ the HG statistic from its definition
 def hg_stat_from_params(v, sigma, theta):
     """Hering-Genton statistic of the (NaN-free) series v for GIVEN parameters of the exponential covariance model
@@ -503,10 +622,17 @@ def _run(case, rows):
     ot = "".join(["ti", "me"])
     hc = "".join(["h", "_"])
     k, n = rows.shape
+    coords = {ts: list(range(100, 100 + k)), hc: (ts, case["h"])}
+    try:
+        tl = time_labels(case, n)
+    except Exception as ex:  # noqa: BLE001
+        return {"err": "HarnessError", "msg": str(ex)[:200]}
+    if tl is not None:
+        coords[ot] = tl
     if case["layout"] == "ts-first":
-        da = xr.DataArray(rows, dims=[ts, ot], coords={ts: list(range(100, 100 + k)), ot: list(range(n)), hc: (ts, case["h"])})
+        da = xr.DataArray(rows, dims=[ts, ot], coords=coords)
     else:
-        da = xr.DataArray(rows.T.copy(), dims=[ot, ts], coords={ts: list(range(100, 100 + k)), ot: list(range(n)), hc: (ts, case["h"])})
+        da = xr.DataArray(rows.T.copy(), dims=[ot, ts], coords=coords)
     with warnings.catch_warnings():
         warnings.simplefilter("ignore")
         with np.errstate(all="ignore"):
@@ -551,6 +677,7 @@ def tag_case(ctx, case, r=None):
     ctx.tag("dist:" + case["dist"])
     ctx.tag("series:%d" % len(case["rows"]))
     ctx.tag("dtype:" + case_dtype(case))
+    ctx.tag("tcoord:" + (case["tcoord"]["kind"] if case.get("tcoord") else "ascending-0..n-1"))
     for kd in case.get("kinds", []):
         ctx.tag("hg-series:" + kd)
     if any(h >= 2 for h in case["h"]):
@@ -638,6 +765,8 @@ def correspondence(ctx):
     cases = [F6_WITNESS] + [gen_case(rng, "HLN", nmax=rng.choice([14, 25, 40])) for _ in range(ctx.n(400, 6000))]
     # the model is a function of the VALUES: integer-typed storage (exact) goes through the same comparison
     cases += [gen_dtype_case(rng, "HLN", rng.choice(INT_DTYPES)) for _ in range(ctx.n(80, 1200))]
+    # the model is a function of the values IN STORED ORDER: non-ascending labels along the time axis change nothing
+    cases = sprinkle_tcoord(rng, cases, 0.3)
     ops, idx = [], []
     for ci, c in enumerate(cases):
         o = series_ops(c, "c19.hln")
@@ -763,6 +892,8 @@ def check_property(case, r, specs, rerun, hgp=None, hgl=None):
     tags0 = {"method": method, "dist": dist}
     if dt != "float64":
         tags0["dtype"] = dt
+    if case.get("tcoord"):
+        tags0["tcoord"] = case["tcoord"]["kind"]
     if "err" in r:
         return [("diebold_mariano", "exception", r["err"] + ": " + r["msg"], "a Dataset", tags0)]
     k = len(case["rows"])
@@ -931,6 +1062,15 @@ def check_property(case, r, specs, rerun, hgp=None, hgl=None):
             bad.append(("diebold_mariano", "series-not-independent", {key: ra.get(key) for key in r} if "err" not in ra else ra["err"],
                         {key: r[key][i] for key in r}, dict(tags0, series=i)))
             break
+    # the labels along the time axis are immaterial: the same VALUES in the same stored order under the plain labels 0 .. n-1
+    # give the same outputs (both methods; the statistics are those of the series in the order supplied)
+    if case.get("tcoord"):
+        rp = rerun({key: val for key, val in case.items() if key != "tcoord"})
+        for i in range(k):
+            if "err" in rp or not all(core.close_ff(r[key][i], rp[key][i], rtol=1e-12, atol=0) for key in r):
+                bad.append(("diebold_mariano", "outputs-depend-on-time-labels", {key: r[key][i] for key in r},
+                            {key: rp[key][i] for key in r} if "err" not in rp else rp["err"], dict(tags0, series=i)))
+                break
     # the storage dtype is immaterial: the same VALUES held as float64 give the same outputs
     # (HG on float32 storage is not compared: the float32 autocovariances feed scipy's iterative fit, whose stopping point
     #  moves by percents under 1e-7 perturbations on series of large magnitude — rounding-decided, tagged by the oracle)
@@ -964,6 +1104,21 @@ DTYPE_WITNESSES = [
 ]
 
 
+_SMOOTH = [[0.5, 1, 1.75, 2.5, 3, 3, 2.25, 1.5, 1, 0, -0.5, -0.25],
+           [2, 1.5, 1, 0.25, -0.5, -1, -1.5, -0.25, 0.5, 1.25, NAN, 2],
+           [-1, -1.25, -0.75, 0.25, 0.75, 2, 2.5, 2.5, 1, 0.25, 0, -1]]
+_DAY_FIRST = {"kind": "dayfirst-str", "type": "str",
+              "labels": ["%02d-01-2021" % d for d in range(26, 32)] + ["%02d-02-2021" % d for d in range(1, 7)]}
+_DAY_OF_YEAR = {"kind": "wrap-counter", "type": "int", "labels": list(range(360, 366)) + list(range(1, 7))}
+_DESC = {"kind": "desc-int", "type": "int", "labels": list(range(11, -1, -1))}
+_DT64 = {"kind": "datetime64-unordered", "type": "datetime64", "labels": ["2021-02-%02d" % d for d in range(12, 0, -1)]}
+_DUP = {"kind": "duplicate", "type": "int", "labels": [5, 5, 4, 4, 3, 3, 2, 2, 1, 1, 0, 0]}
+# strongly autocorrelated (smooth) series whose time labels are not ascending: the order of the VALUES is what counts
+TCOORD_WITNESSES = [dict(mk_case(_SMOOTH, [2, 3, 4], m, "normal", 0.95, lay), tcoord=tc)
+                    for tc in (_DAY_FIRST, _DAY_OF_YEAR, _DESC, _DT64, _DUP, {"kind": "none", "type": "none", "labels": []})
+                    for m, lay in (("HLN", "ts-first"), ("HG", "ts-second"))]
+
+
 def oracle(ctx, boost):
     rng = ctx.rng
     mult = 5 if boost else 1
@@ -983,6 +1138,9 @@ def oracle(ctx, boost):
         cases += [mk_case([s], [h], m, "normal", 0.9, dtype=dt) for h in range(1, n) for m in ("HLN", "HG")]
     # strongly autocorrelated / trending / long-memory series (HG definition over all lags)
     cases += [gen_long_case(rng) for _ in range(ctx.n(90, 1500) * (2 if boost else 1))]
+    # the coordinate along the time axis: labels that are not ascending (descending, day-first date strings, wrapping counters,
+    # duplicates, datetime64 out of order, no coordinate) on 40 % of the cases of every stream above, and on fixed smooth series
+    cases = sprinkle_tcoord(rng, cases, 0.4) + TCOORD_WITNESSES
     ops = []
     for c in cases:
         ops += series_ops(c, "c19.spec")
